@@ -405,6 +405,12 @@ class _AllChemStub:
     def EmbedMolecule(self, mol, *a, **k):
         from rdkit.Chem import rdchem
 
+        if mol is None:  # what rdkit does with a fragment that is no SMILES: Boost.Python.ArgumentError, a TypeError
+            try:
+                return self._real.EmbedMolecule(mol, *a, **k)
+            except Exception as e:
+                e._sx_emulated = True
+                raise
         conf = rdchem.Conformer(mol.GetNumAtoms())
         mol.AddConformer(conf, assignId=True)
         return 0
